@@ -328,7 +328,7 @@ pub fn run(ctx: &Ctx, rep: &mut Report) {
     rep.rule = "cases: for every valid compiled format (core, syntax, prebuilt, write and separator groups) x {f32, f64 (standard and \
         custom decimal point / exponent character), integers (all 12 types for STANDARD/R16/R3, four types elsewhere)}: (i) all \
         strings of length <= L (quick 4, thorough 5) over the per-format alphabet (signs, digits, point, exponent in both cases, \
-        prefix/suffix letters, separator, special-string letters, space, 0x80); (ii) generated numbers followed by a suffix \
+        prefix/suffix letters, separator, special-string letters, space, the largest digit with its high bit set); (ii) generated numbers followed by a suffix \
         (nothing, junk byte, separator, sign, exponent, point, suffix letter, another number, special string), optionally \
         preceded by a prefix and mutated at one position; (iii) the configured special strings (default NaN/inf/infinity and an \
         alternative set whose NaN string is longer than the long infinity string) with case flips, 0-6 inserted separators, sign \
